@@ -6,6 +6,7 @@ import (
 	"fmt"
 	"os"
 	"os/signal"
+	"path/filepath"
 	"runtime"
 	"runtime/debug"
 	"runtime/pprof"
@@ -97,8 +98,21 @@ func cmdRun(prop string, args []string) int {
 		ws.Close()
 		return 0
 	}
+	if !c.Quick() && transcriptDir == "" {
+		// thorough tier: keep solver transcripts for the cross-solver check
+		transcriptDir = filepath.Join(ws.Dir, "transcripts")
+		os.MkdirAll(transcriptDir, 0o755)
+		c.CrossDir = transcriptDir
+	}
 	if err := fn(c); err != nil {
 		c.inconclusive("check could not run: %v", err)
+	}
+	if c.CrossDir != "" {
+		cs := crossCheck(c.CrossDir, 4000)
+		c.Cross = &cs
+		if cs.Disagreements > 0 {
+			c.inconclusive("cross-solver disagreement: %s", cs.Example)
+		}
 	}
 	code := c.Finish()
 	ws.Close()
